@@ -92,20 +92,45 @@ Theorem restrict_survivor_sets : forall P d, sets_ok d ->
 Proof. exact clear_sets_spec. Qed.
 Print Assumptions restrict_survivor_sets.
 
-(* not proved: injectivity of the survivor map (no object duplicated) and the exact PU list
-   (restrict_pus); both are decided on every C output by restrict_spec_check
-   (gp-index-duplicate-after, pus-not-exactly-old-pus-in-set). *)
+(* The survivor map is injective: no object is duplicated (ids stay distinct), whole tree, all parameters. *)
+Theorem restrict_survivors_injective : forall t S flags t',
+  restrict_prune t S flags = Done t' ->
+  NoDup (map oid (flatten (tp_root t))) -> NoDup (map oid (flatten (tp_root t'))).
+Proof. exact prune_nodup. Qed.
+Print Assumptions restrict_survivors_injective.
 
-(* The removal rule, one object, both flavours, all parameters: the object goes iff no normal and
-   no memory child is left after the recursion, its cleared cpuset (nodeset) is empty, and it is not
-   a NUMA node (PU) unless REMOVE_CPULESS (REMOVE_MEMLESS).  (Whole-tree form: not proved.) *)
-Theorem restrict_removed_iff_partial : forall P d n m i x,
-  fst (fst (robj P (Obj d n m i x))) = None <->
-  (let kn := kept_children P d n in
-   let n1 := if snd (clear_sets P d) && (negb (rp_bynode P) || rp_rm P) then reorder_children (fst (fst kn)) else fst (fst kn) in
-   n1 = [] /\ fst (fst (kept_children P d m)) = [] /\ removal_test P (fst (clear_sets P d)) = true).
-Proof. exact robj_removed_iff. Qed.
-Print Assumptions restrict_removed_iff_partial.
+(* Restrict by cpuset: the PUs afterwards are exactly the old PUs with os_index in S (no PU outside S is
+   left, every PU inside S is still there with the same id / os_index), for every tree whose PUs are leaves
+   with cpuset = complete cpuset = {os_index} and whose complete cpusets decrease along normal children
+   (clauses of C01's WF), every S and every flag word without BYNODESET.
+   (By nodeset with REMOVE_MEMLESS: decided on the C outputs by restrict_spec_check only.) *)
+Theorem restrict_pus : forall t S flags t',
+  restrict_prune t S flags = Done t' -> hasf flags HWLOC_RESTRICT_FLAG_BYNODESET = false ->
+  tree_ok (tp_root t) ->
+  (forall q, In q (nflatten (tp_root t')) -> otype q = HWLOC_OBJ_PU -> mem (o_os (odata q)) S = true) /\
+  (forall p, In p (nflatten (tp_root t)) -> otype p = HWLOC_OBJ_PU -> mem (o_os (odata p)) S = true ->
+             exists p', In p' (nflatten (tp_root t')) /\ oid p' = oid p /\ otype p' = HWLOC_OBJ_PU /\
+                        o_os (odata p') = o_os (odata p)).
+Proof. exact prune_pus_bycpu. Qed.
+Print Assumptions restrict_pus.
+
+(* The removal rule, whole tree, both flavours, all parameters.  [vanishes] states the rule on the OLD
+   tree: an object reached by the recursion goes iff (its sets are changed by this restriction and all its
+   normal and memory children go by the same rule, or it has no such child), its cleared cpuset (nodeset)
+   is empty, and it is not a NUMA node (PU) unless REMOVE_CPULESS (REMOVE_MEMLESS). *)
+Theorem restrict_removed_iff : forall P o, fst (fst (robj P o)) = None <-> (vanishes P o = true).
+Proof. exact robj_vanishes. Qed.
+Print Assumptions restrict_removed_iff.
+
+(* ... and the normal and memory objects of the result are exactly [alive]: the objects that do not vanish
+   and are reached through ancestors whose sets change and that do not vanish, plus the whole untouched
+   subtree below an object whose sets do not change. *)
+Theorem restrict_alive : forall t S flags t',
+  restrict_prune t S flags = Done t' ->
+  exists P, restrict_params t S flags = Some P /\
+            forall k, In k (map oid (nmflatten (tp_root t'))) <-> In k (alive P (tp_root t)).
+Proof. exact prune_alive. Qed.
+Print Assumptions restrict_alive.
 
 (* Misc and I/O children, one object: a kept object keeps all of them and hands nothing up; a
    removed one hands them to its parent exactly with the ADAPT flag of their kind, else drops them. *)
@@ -205,3 +230,36 @@ Example ex_restrict_twice :
                     restrict_prune ex_topo (bs_inter (bs_of_N 3) (bs_of_N 5)) 0 = Done t12 /\
                     o_cs (odata (tp_root t2)) = sN 1.
 Proof. vm_compute. eexists. eexists. eexists. repeat split. Qed.
+
+(* hypotheses of restrict_pus and restrict_survivors_injective on the concrete tree *)
+Example ex_tree_ok : tree_ok ex_tree.
+Proof.
+  intros q Hq. unfold ex_tree in Hq. cbn in Hq.
+  repeat (destruct Hq as [<-|Hq];
+          [split; [intros Hpu; try (vm_compute in Hpu; discriminate Hpu); repeat split; reflexivity
+                  |cbn; intros c Hc; repeat (destruct Hc as [<-|Hc]; [vm_compute; reflexivity|]); contradiction]|]).
+  contradiction.
+Qed.
+
+Example ex_ids_nodup : NoDup (map oid (flatten ex_tree)).
+Proof.
+  vm_compute. repeat (constructor; [intros H; repeat (destruct H as [H|H]; [discriminate H|]); contradiction|]). constructor.
+Qed.
+
+(* PUs 0 and 1 (ids 3, 5) stay, PU 2 (id 9) goes *)
+Example ex_restrict_pus :
+  match restrict_prune ex_topo (bs_of_N 3) 0 with
+  | Done t => map (fun q => (oid q, o_os (odata q))) (pu_objs (tp_root t))
+  | _ => []
+  end = [(3, 0); (5, 1)].
+Proof. vm_compute. reflexivity. Qed.
+
+(* the removal rule on the old tree: with REMOVE_CPULESS Package1 (7), its NUMA node (8) and PU (9), the Group (13)
+   and its NUMA node (14) vanish; without it only PU 2 does *)
+Example ex_alive :
+  match restrict_params ex_topo (bs_of_N 3) 1, restrict_params ex_topo (bs_of_N 3) 0 with
+  | Some P1, Some P0 => (alive P1 ex_tree, alive P0 ex_tree)
+  | _, _ => ([], [])
+  end = ([0; 1; 3; 5; 2], [0; 1; 3; 5; 2; 7; 8; 13; 14]).
+Proof. vm_compute. reflexivity. Qed.
+
